@@ -20,6 +20,7 @@ def parseInput : List String → Option Input
   | ["send", ch, s, d] => do pure (.send (← parseNat? ch) (← parseBool? s) (← parseHex? d))
   | ["close", ch] => do pure (.close (← parseNat? ch))
   | ["threshold", ch, v] => do pure (.threshold (← parseNat? ch) (← parseInt? v))
+  | ["react", k, ch, s, d] => do pure (.react (← parseNat? k) (← parseNat? ch) (← parseBool? s) (← parseHex? d))
   | _ => none
 
 def showOptNat : Option Nat → String
@@ -43,6 +44,7 @@ def mapInput (e : Ep) : Input → Input
   | .send ch s d => .send (toModelIdx e ch) s d
   | .close ch => .close (toModelIdx e ch)
   | .threshold ch v => .threshold (toModelIdx e ch) v
+  | .react k ch s d => .react k (if k = 4 then 0 else toModelIdx e ch) s d
   | i => i
 
 def showOut (e : Ep) : Out → String
@@ -58,6 +60,7 @@ def showOut (e : Ep) : Out → String
     match e.chans[i]? with
     | some c => s!"chan:{toVisibleIdx e i}:{showOptNat c.id}:{toHex c.label}:{toHex c.protocol}:{showBool c.ordered}:{showOptNat c.maxRetransmits}:{showOptNat c.maxPacketLifeTime}"
     | none => s!"chan:{i}:?"
+  | .rexc i k => s!"rexc:{toVisibleIdx e i}:{k}"
   | .exc k => "exc:" ++ k
   | .crash k => "crash:" ++ k
 
